@@ -12,7 +12,15 @@
 
     The theorems: for every input in their quantifier the model's function ([Kfmt.Fmt], what Props/C15.v is about)
     returns [Ok], and the regenerated function - with the stated fuel - returns [GOk] (no run-time panic, fuel
-    suffices), has made exactly the model's Write calls, in order, and leaves the model's numFmtBuf. *)
+    suffices), has made exactly the model's Write calls, in order, and leaves the model's numFmtBuf.
+    (Audit note: that last sentence is what the four helper theorems state.  The two Fprintf theorems state LESS: the
+    final trace [tr'] and numFmtBuf [buf'] are existentially quantified and only [trace_bytes tr'] - the concatenation
+    of the byte slices of the events, which forgets the event name, the writer argument and how the bytes are split
+    into Write calls - is tied to the model's output.  The proof (Kfmt/FmtTransScan.v) does establish
+    tr' = pushed w cs tr and buf' = the model's buffer; the statement does not expose it.  Side conditions of the
+    Fprintf theorems: len(format), len(args) and every string argument shorter than 2^62 (2^63 for the strings of
+    C15_fprintf_is_translation), integer arguments within their type, numFmtBuf of its declared length, fuel above
+    len(format) + len(args) + len(output) + 34.) *)
 From Coq Require Import NArith ZArith String List.
 From FF Require Import Lib.Word Lib.GoOps Lib.GoOpsFmt Gen.Consts_kfmt Gen.Trans_kfmt_fmt Kfmt.Fmt Kfmt.FmtSpec Kfmt.FmtTrans Kfmt.FmtTransScan.
 Import ListNotations.
@@ -84,13 +92,31 @@ Print Assumptions C15_fmtRepeat_is_translation.
 
 (** Fprintf: EVERY format string (any bytes: unknown verbs, a trailing '%', digit runs that wrap the 64-bit int) and
     EVERY argument list (values of [gany] within the range of their type, strings / byte slices of a length Go can
-    have; too short, too long, mistyped), any contents of numFmtBuf, any singleByte, any writer: the model's
-    [fprintf] (the function of C15_fprintf_exact / C15_fprintf_never_panics) returns [Ok] with output [out], and
-    with fuel above  len(format) + len(args) + len(out) + 34  - the scanner makes at most len(format)+1 steps per
-    loop, every padding / string step writes a byte of [out], fmtInt needs 34 - the regenerated Fprintf returns
-    [GOk] (no run-time panic, no index out of range on format / args / numFmtBuf / singleByte, fuel suffices) and
-    the concatenation of the bytes of its doWrite events, in call order, is [out]. *)
+    have; too short, too long, mistyped), any contents of numFmtBuf, any singleByte, any writer [w]: the model's
+    [fprintf] (the function of C15_fprintf_exact / C15_fprintf_never_panics) returns [Ok (cs, buf')] - [cs] the list of
+    its Write calls - and with fuel above  len(format) + len(args) + len(bytes of cs) + 34  (the scanner makes at most
+    len(format)+1 steps per loop, every padding / string step writes a byte, fmtInt needs 34) the regenerated Fprintf
+    returns [GOk] - no run-time panic, no index out of range on format / args / numFmtBuf / singleByte, fuel
+    suffices - and its world is EXACTLY: the old trace with the model's Write calls pushed on it in order, each as
+    one doWrite event on THAT writer [w] with that chunk ([pushed w cs tr]: same event name, same writer, same
+    chunking), numFmtBuf = the model's final buffer [buf'], singleByte holding one byte. *)
 Theorem C15_fprintf_is_translation :
+  forall (w : bool) (tr : list gcall) (buf : list N) (x : N) (fmt : list N) (gargs : list gany),
+    length buf = N.to_nat kfmt_numFmtBufLen ->
+    N.of_nat (length fmt) < 4611686018427387904 -> N.of_nat (length gargs) < 4611686018427387904 ->
+    Forall gany_wf gargs -> Forall str_ok gargs ->
+    exists cs buf',
+      fprintf fmt (map of_gany gargs) buf = Ok (cs, buf') /\
+      forall FU, (length fmt + length gargs + length (List.concat cs) + 34 < FU)%nat ->
+        exists y,
+          go_kfmt_Fprintf FU (mk_go_kfmt_world tr buf [x]) w fmt gargs
+            = GOk (mk_go_kfmt_world (pushed w cs tr) buf' [y], tt).
+Proof. exact fprintf_is_translation. Qed.
+Print Assumptions C15_fprintf_is_translation.
+
+(** the bytes-only corollary (weaker: it forgets the writer, the event names and the chunking): the concatenation of
+    the bytes of the doWrite events, in call order, is the model's output [written (fprintf ..)] *)
+Theorem C15_fprintf_translation_bytes :
   forall (w : bool) (tr : list gcall) (buf : list N) (x : N) (fmt : list N) (gargs : list gany),
     length buf = N.to_nat kfmt_numFmtBufLen ->
     N.of_nat (length fmt) < 4611686018427387904 -> N.of_nat (length gargs) < 4611686018427387904 ->
@@ -101,20 +127,24 @@ Theorem C15_fprintf_is_translation :
         exists tr' buf' y,
           go_kfmt_Fprintf FU (mk_go_kfmt_world tr buf [x]) w fmt gargs = GOk (mk_go_kfmt_world tr' buf' [y], tt) /\
           trace_bytes tr' = trace_bytes tr ++ out.
-Proof. exact fprintf_is_translation. Qed.
-Print Assumptions C15_fprintf_is_translation.
+Proof. exact fprintf_translation_bytes. Qed.
+Print Assumptions C15_fprintf_translation_bytes.
 
-(** ... composed with C15_fprintf_exact: for every WELL-FORMED format (the property's quantifier) the regenerated
-    Fprintf writes exactly the specification's [render] *)
+(** ... composed with C15_fprintf_exact: for every WELL-FORMED format (the property's quantifier) the Write calls
+    [cs] the regenerated Fprintf makes on [w] (exactly the model's, as above) carry exactly the specification's
+    [render], and numFmtBuf ends as the model's buffer *)
 Theorem C15_fprintf_translation_renders :
   forall (w : bool) (tr : list gcall) (buf : list N) (x : N) (ps : list piece) (gargs : list gany),
     length buf = N.to_nat kfmt_numFmtBufLen ->
     N.of_nat (length (encode ps)) < 4611686018427387904 -> N.of_nat (length gargs) < 4611686018427387904 ->
     Forall piece_wf ps -> Forall gany_wf gargs ->
     Forall (fun g => match g with GAStr s | GABytes s => glen s < 4611686018427387904 | _ => True end) gargs ->
-    forall FU, (length (encode ps) + length gargs + length (render ps (map of_gany gargs)) + 34 < FU)%nat ->
-      exists tr' buf' y,
-        go_kfmt_Fprintf FU (mk_go_kfmt_world tr buf [x]) w (encode ps) gargs = GOk (mk_go_kfmt_world tr' buf' [y], tt) /\
-        trace_bytes tr' = trace_bytes tr ++ render ps (map of_gany gargs).
+    exists cs buf',
+      fprintf (encode ps) (map of_gany gargs) buf = Ok (cs, buf') /\
+      List.concat cs = render ps (map of_gany gargs) /\
+      forall FU, (length (encode ps) + length gargs + length (render ps (map of_gany gargs)) + 34 < FU)%nat ->
+        exists y,
+          go_kfmt_Fprintf FU (mk_go_kfmt_world tr buf [x]) w (encode ps) gargs
+            = GOk (mk_go_kfmt_world (pushed w cs tr) buf' [y], tt).
 Proof. exact fprintf_trans_render. Qed.
 Print Assumptions C15_fprintf_translation_renders.
